@@ -40,7 +40,7 @@ DefSchema(d) ==
                               ELSE [type |-> <<"array">>, items |-> RefTo(Edge[d][i].to)]]]
                    \o <<[k |-> "v", s |-> Int1]>>)
 
-Depth == IF NDefs = 2 THEN 3 ELSE 2
+Depth == IF NDefs = 2 THEN (IF Tier = "thorough" THEN 4 ELSE 3) ELSE (IF Tier = "thorough" THEN 3 ELSE 2)
 LeafDocs == {JObj(<<>>), JObj(<<KV("v", JNum(4))>>), JObj(<<KV("v", JNum(0))>>)}
 WrapE(e, sub) == IF e.via = "prop" THEN JObj(<<KV(e.name, sub)>>) ELSE JObj(<<KV(e.name, JArr(<<JObj(<<>>), sub>>))>>)
 RECURSIVE DocsAt(_, _)
